@@ -578,6 +578,15 @@ func (s *Stream) resetOutgoingStreamSequenceNumbers() {
 	s.lock.Lock()
 	defer s.lock.Unlock()
 
+	// Only a stream that has been closed sends an outgoing reset request. An
+	// open stream found under the identifier when the response arrives was
+	// opened after that request was sent (the response was delayed or is
+	// the answer to a retransmission): it is not the one the peer has reset,
+	// and rewinding its counters would make it reuse sequence numbers.
+	if s.state == StreamStateOpen {
+		return
+	}
+
 	// RFC 8260 extends RFC 6525 stream reset, so when an outgoing stream is
 	// reset, the SSN and both ordered/unordered MID counters restart at zero.
 	s.sequenceNumber = 0
